@@ -709,4 +709,369 @@ Proof.
            unfold out_journey in Hjout. cbn [j_out] in Hjout. discriminate.
 Qed.
 
+
+(** the time of the last event of a list of events (the clock the next event is measured against) *)
+Definition last_time (clk : Z) (evs : list ev) : Z := fold_left (fun _ e => ev_time e) evs clk.
+
+(** ---------- the day's check-ins ---------- *)
+Lemma cleared_kept_ts (t : traveller) now : p_ts (t_kept (snd (cleared t now))) = p_ts (t_kept t).
+Proof.
+  unfold cleared. cbn [snd]. destruct (p_clear (t_kept t) =? 0); [reflexivity|].
+  destruct (match_promise _ _); reflexivity.
+Qed.
+
+Lemma submit_flight_kept_ts (t : traveller) f now taxi debit t' bac pd :
+  submit_flight t f now taxi debit = inl (t', bac, pd) -> p_ts (t_kept t') = p_ts (t_kept t) \/ p_ts (t_kept t') = 0.
+Proof.
+  unfold submit_flight. pose proof (cleared_kept_ts t now) as Ek.
+  destruct (cleared t now) as [cr t1]. cbn [snd] in Ek. rewrite <- Ek.
+  destruct cr; try discriminate;
+  (destruct (add_flight (t_hist t1) f) as [h'|]; [|discriminate]);
+  destruct debit; try destruct (kneb N taxi (k0 N)); intros E; injection E as <- _ _; auto.
+Qed.
+
+Lemma checkin_kept_ts (t : traveller) pc f now p debit t' pc' :
+  submit_loop t pc [f] now p debit = inl (t', pc') -> p_ts (t_kept t') = p_ts (t_kept t) \/ p_ts (t_kept t') = 0.
+Proof.
+  unfold submit_loop. cbn [submit_loop_from checkin_one].
+  destruct (submit_flight t f now (pTaxi p) debit) as [[[t1 bac] pd]|er] eqn:Es; [|discriminate].
+  pose proof (submit_flight_kept_ts _ _ _ _ _ _ _ _ Es) as Ek.
+  destruct (has_bit (pAlgo p) pamCorrectBalances && kltb N bac (k0 N));
+    intros E; injection E as <- _; cbn [transact t_kept]; exact Ek.
+Qed.
+
+(** what an accepted check-in of a flight not older than the newest one leaves *)
+Lemma checkin_shape (t : traveller) pc (f g : flight) rest now p debit t' pc' :
+  ordered (t_hist t) -> entries (t_hist t) = g :: rest -> fstart g <= fstart f ->
+  submit_loop t pc [f] now p debit = inl (t', pc') ->
+  t_book t' = t_book t /\
+  t_hist t' = {| entries := f :: firstn (MaxFlights - 1) (g :: rest);
+                 oc := if Nat.ltb (oc (t_hist t)) (MaxFlights - 1) then S (oc (t_hist t)) else oc (t_hist t) |} /\
+  (p_ts (t_kept t') = p_ts (t_kept t) \/ p_ts (t_kept t') = 0).
+Proof.
+  intros HO El Hle Es. destruct (submit_single_shape _ _ _ _ _ _ _ _ Es) as [Eb Eh].
+  rewrite (add_head_exact (t_hist t) f g rest HO El Hle) in Eh. injection Eh as Eh.
+  split; [exact Eb|]. split; [symmetry; exact Eh|]. eapply checkin_kept_ts; eauto.
+Qed.
+
+Lemma today_at_most_one (d : Z) (pend : list journey) :
+  NoDup (map jday (fut d pend)) -> (length (filter (journey_today d) pend) <= 1)%nat.
+Proof.
+  unfold fut, journey_today. induction pend as [|a r IH]; cbn [filter map length]; [lia|].
+  destruct (Z.eqb_spec (jday a) d) as [E|E].
+  - destruct (Z.leb_spec d (jday a)) as [_|C]; [|lia]. cbn [map length]. intros Hnd.
+    apply NoDup_cons_iff in Hnd. destruct Hnd as [Hnotin Hnd'].
+    assert (Hnone : filter (fun j => jday j =? d) r = []).
+    { destruct (filter (fun j => jday j =? d) r) as [|j0 r0] eqn:Ef; [reflexivity|exfalso].
+      assert (Hj0 : In j0 (filter (fun j => jday j =? d) r)) by (rewrite Ef; left; reflexivity).
+      apply filter_In in Hj0. destruct Hj0 as [Hj0 Hd0]. apply Z.eqb_eq in Hd0. apply Hnotin.
+      rewrite E. rewrite <- Hd0. apply in_map. apply filter_In. split; [exact Hj0|apply Z.leb_le; lia]. }
+    rewrite Hnone. cbn [length]. lia.
+  - destruct (d <=? jday a); cbn [map]; intros Hnd; [apply NoDup_cons_iff in Hnd; destruct Hnd as [_ Hnd]|]; apply IH; assumption.
+Qed.
+
+Lemma inflight_day (y x : flight) qs len : InFlight y x qs len -> qs mod SecondsInDay = 0 ->
+  day_of (fstart y) = qs / SecondsInDay + len.
+Proof.
+  intros (I1 & I2 & I3 & _) Hm. unfold day_of, SecondsInDay in *.
+  assert (E : qs = 86400 * (qs / 86400)) by (pose proof (Z_div_mod_eq_full qs 86400); lia).
+  symmetry. apply Z.div_unique with (fstart y - (qs + len * 86400)); [left; lia|lia].
+Qed.
+
+Lemma Links_next d (bk : book) (pend : list journey) : Links d bk pend -> Links (d + 1) bk pend.
+Proof.
+  intros [H1 H2 H3]. constructor.
+  - intros j Hj Ho Hd. apply H1; auto. lia.
+  - intros i Hi Hne Hle. apply H2; auto. unfold SecondsInDay in *. lia.
+  - unfold fut in *. clear H1 H2. induction pend as [|a r IH]; cbn [filter map] in *; [constructor|].
+    destruct (Z.leb_spec d (jday a)) as [L|L].
+    + cbn [map] in H3. apply NoDup_cons_iff in H3. destruct H3 as [Hn Hnd]. specialize (IH Hnd).
+      destruct (Z.leb_spec (d + 1) (jday a)) as [L2|L2]; [|exact IH]. cbn [map]. constructor; [|exact IH].
+      intros Hin. apply Hn. apply in_map_iff in Hin. destruct Hin as (j & Ej & Hj). apply filter_In in Hj.
+      destruct Hj as [Hj Hdj]. apply Z.leb_le in Hdj. rewrite <- Ej. apply in_map. apply filter_In.
+      split; [exact Hj|apply Z.leb_le; lia].
+    + destruct (Z.leb_spec (d + 1) (jday a)); [lia|]. apply IH, H3.
+Qed.
+
+
+Lemma stop_at_firstn (rest : list flight) n : stop_at rest -> stop_at (firstn (S n) rest).
+Proof.
+  intros [->|(r0 & rs & -> & H)]; [left; reflexivity|]. right. exists r0, (firstn n rs). split; [reflexivity|exact H].
+Qed.
+
+Lemma home_head_stops (t : traveller) g rest : entries (t_hist t) = g :: rest ->
+  (hempty (t_hist t) = true \/ mid_trip (t_hist t) = false) -> fstart g = 0 \/ is_end g = true.
+Proof.
+  intros El [He|Hm]; unfold mid_trip, hempty, getf in *; rewrite El in *; cbn [nth] in *.
+  - left. apply Z.eqb_eq. exact He.
+  - right. apply orb_false_iff in Hm. destruct Hm as [_ Hm]. apply negb_false_iff. exact Hm.
+Qed.
+
+Lemma away_mid_trip (t : traveller) (x : flight) rest : entries (t_hist t) = x :: rest -> open_leg x -> mid_trip (t_hist t) = true.
+Proof.
+  intros El Hx. destruct (open_leg_plain x Hx) as (_ & _ & _ & Hxe).
+  unfold mid_trip, getf. rewrite El. cbn [nth]. rewrite Hxe. apply orb_true_r.
+Qed.
+
+Lemma submit_step d (t2 : traveller) pend2 (di : day_input) :
+  J mx (d * SecondsInDay) t2 -> 1 <= d -> Links d (t_book t2) pend2 -> PhM d t2 pend2 -> day_ok tp di ->
+  let '(t3, newj, evs3) := bot_submit t2 (filter (journey_today d) pend2) di in
+  conforming mx (d * SecondsInDay) t2 evs3 /\ t3 = fold_left (apply_ev mx) evs3 t2 /\
+  BI (d + 1) (last_time (d * SecondsInDay) evs3) (mkBot t3 (pend2 ++ newj)).
+Proof.
+  intros HJ Hd HL HP (Hp & Hpred & Hdraw & _).
+  pose proof HJ as [HI HPos HD HO HC].
+  set (now := d * SecondsInDay) in *.
+  assert (Hnowm : now mod SecondsInDay = 0) by (apply Z_mod_mult).
+  assert (Hnowpos : 86400 <= now) by (unfold now, SecondsInDay; lia).
+  pose proof (today_at_most_one d pend2 (l_uniq _ _ _ HL)) as Hle1.
+  destruct (filter (journey_today d) pend2) as [|j [|j2 r]] eqn:Ef; [| |cbn [length] in Hle1; lia].
+  - (* nothing planned for today *)
+    cbn [bot_submit]. split; [exact I|]. split; [reflexivity|]. cbn [last_time fold_left]. rewrite app_nil_r.
+    assert (Hnot : forall j, In j pend2 -> jday j <> d).
+    { intros j Hj E. assert (Hin : In j (filter (journey_today d) pend2)).
+      { apply filter_In. split; [exact Hj|]. unfold journey_today. apply Z.eqb_eq. exact E. }
+      rewrite Ef in Hin. destruct Hin. }
+    constructor; cbn [b_trav b_pend].
+    + exact HJ.
+    + unfold now, SecondsInDay. lia.
+    + lia.
+    + apply Links_next. exact HL.
+    + destruct HP as [HH|HA]; [left|right; left].
+      * destruct HH as (H1 & H2 & H3 & H4 & H5 & H6). unfold Home.
+        split; [exact H1|]. split; [exact H2|]. split; [fold now in H3; unfold now, SecondsInDay in *; lia|].
+        split; [fold now in H4; unfold now, SecondsInDay in *; lia|]. split.
+        -- intros Hm i Hi Hne Hlt. specialize (H5 Hm i Hi Hne Hlt).
+           destruct (l_p2j _ _ _ HL i Hi Hne H5) as (j & Hj & O1 & O2 & _).
+           specialize (Hnot j Hj). rewrite O2 in *. unfold SecondsInDay in *. lia.
+        -- intros j Hj Hdj. apply H6; [exact Hj|lia].
+      * destruct HA as (x & rest & qs & len & El & Hx & Hstop & Hoc & HT & Hq1 & Hq2 & (jin & Hjin & Hjo & Hjf) & Hall).
+        exists x, rest, qs, len. split; [exact El|]. split; [exact Hx|]. split; [exact Hstop|]. split; [exact Hoc|].
+        split; [exact HT|]. split; [unfold SecondsInDay in *; lia|]. split.
+        -- pose proof (inflight_day _ _ _ _ Hjf (tr_day _ _ _ _ _ HT)) as Ed. specialize (Hnot jin Hjin). unfold jday in Hnot.
+           rewrite Ed in Hnot. pose proof (tr_day _ _ _ _ _ HT) as Hday.
+           assert (E : qs = 86400 * (qs / 86400)) by (unfold SecondsInDay in Hday; pose proof (Z_div_mod_eq_full qs 86400); lia).
+           unfold SecondsInDay in *. lia.
+        -- split; [exists jin; auto|]. intros j Hj Hdj Hjout. apply Hall; [exact Hj|lia|exact Hjout].
+  - (* one journey today *)
+    assert (Hjin : In j pend2 /\ jday j = d).
+    { assert (Hin : In j (filter (journey_today d) pend2)) by (rewrite Ef; left; reflexivity).
+      apply filter_In in Hin. destruct Hin as [H1 H2]. unfold journey_today in H2. apply Z.eqb_eq in H2. auto. }
+    destruct Hjin as [Hj Hjd].
+    set (f := j_flight j) in *.
+    destruct (entries (t_hist t2)) as [|g rest0] eqn:El.
+    { destruct HO as (Hl & _). rewrite El in Hl. discriminate. }
+    cbn [bot_submit]. set (e := checkin_ev di f).
+    (* facts about the flight and the state, case by case; then the common ending *)
+    assert (Hcase :
+      conforms mx now t2 e /\ fstart g <= fstart f /\ now <= fstart f /\ fstart f < now + SecondsInDay /\
+      forall t3 pc', submit_loop t2 (di_pc di) [f] (fstart f) (di_params di) (di_debit di) = inl (t3, pc') ->
+        let newj := if j_out j then [in_journey j (di_rin di) (di_durin di)] else [] in
+        Links (d + 1) (t_book t3) (pend2 ++ newj) /\ Ph (d + 1) t3 (pend2 ++ newj)).
+    { destruct HP as [HH|HA].
+      - (* at home: the outbound flight of a promised trip *)
+        destruct HH as (H1 & H2 & H3 & H4 & H5 & H6). fold now in H3, H4.
+        assert (Hout : j_out j = true) by (apply H6; [exact Hj|lia]).
+        destruct (l_j2p _ _ _ HL j Hj Hout ltac:(lia)) as (i & Hi & Hne & Hof).
+        pose proof Hof as (O1 & O2 & O3 & O4 & O5 & O6 & O7 & O8 & O9 & O10 & O11 & O12 & O13).
+        fold f in O4, O5, O6, O7, O8, O9, O10. rewrite Hjd in O2. fold now in O2.
+        rewrite El in H3. unfold getf in H3. cbn [nth] in H3.
+        split.
+        { unfold e, checkin_ev. split; [cbn [ev_time]; lia|]. split; [unfold is_end; rewrite O7; reflexivity|].
+          split; [lia|]. split; [rewrite El; cbn [getf nth]; lia|].
+          intros Hm. exists i. split; [exact Hi|]. split; [split; [exact Hne|lia]|lia]. }
+        split; [lia|]. split; [lia|]. split; [unfold SecondsInDay in *; lia|].
+        intros t3 pc' Es. rewrite Hout. cbn zeta.
+        destruct (checkin_shape t2 (di_pc di) f g rest0 (fstart f) (di_params di) (di_debit di) t3 pc' HO El ltac:(lia) Es) as (Eb & Eh & Ek).
+        rewrite H2 in Eh. change (Nat.ltb 0 (MaxFlights - 1)) with true in Eh. change (MaxFlights - 1)%nat with 99%nat in Eh. cbn [firstn] in Eh.
+        set (jin := in_journey j (di_rin di) (di_durin di)).
+        set (qs := p_ts (getp (t_book t2) i)) in *. set (len := j_len j) in *.
+        assert (Hqs : qs = now) by exact O2.
+        assert (Hids : inbound_day_start j = qs + len * SecondsInDay).
+        { unfold inbound_day_start. fold f. fold len.
+          assert (Em : fstart f mod SecondsInDay = fstart f - now).
+          { symmetry. apply Z.mod_unique with d; [left; unfold SecondsInDay in *; lia|unfold now; lia]. }
+          rewrite Em. lia. }
+        assert (Hdr : 0 <= di_rin di /\ di_rin di < SecondsInDay - di_durin di - 1 /\ 0 < di_durin di).
+        { unfold draw_ok in Hdraw. apply andb_prop in Hdraw. destruct Hdraw as [Hd1 Hd3]. apply andb_prop in Hd1.
+          destruct Hd1 as [Hd1 Hd2]. apply Z.leb_le in Hd1. apply Z.ltb_lt in Hd2. apply Z.ltb_lt in Hd3. auto. }
+        assert (Hjf : InFlight (j_flight jin) f qs len).
+        { unfold jin, in_journey, InFlight, build_flight. cbn [j_flight fstart fend fdist et]. rewrite Hids. fold f.
+          repeat split; unfold SecondsInDay in *; lia. }
+        assert (Hjind : jday jin = d + len).
+        { unfold jday. rewrite (inflight_day _ _ _ _ Hjf ltac:(rewrite Hqs; exact Hnowm)). rewrite Hqs. unfold now, SecondsInDay.
+          rewrite Z_div_mult by lia. reflexivity. }
+        assert (HT : Trip (t_book t3) (t_kept t3) f qs len).
+        { rewrite Eb. constructor.
+          - exists i. split; [exact Hi|]. split; [reflexivity|]. split; [exact O3|exact O9].
+          - rewrite Hqs. exact Hnowm.
+          - rewrite Hqs. lia.
+          - exact O4.
+          - exact O5.
+          - exact O6.
+          - exact O8.
+          - exact O10.
+          - exact O11.
+          - exact O12.
+          - exact O13.
+          - destruct Ek as [Ek|Ek]; rewrite Ek; lia. }
+        split.
+        + (* links *)
+          rewrite Eb. pose proof (Links_next _ _ _ HL) as [L1 L2 L3]. constructor.
+          * intros j' Hj' Ho' Hd'. apply in_app_or in Hj'. destruct Hj' as [Hj'|[<-|[]]]; [apply L1; assumption|].
+            unfold jin, in_journey in Ho'. cbn [j_out] in Ho'. discriminate.
+          * intros i' Hi' Hne' Hle'. destruct (L2 i' Hi' Hne' Hle') as (j' & Hj' & Hof'). exists j'. split; [apply in_or_app; left; exact Hj'|exact Hof'].
+          * unfold fut. rewrite filter_app, map_app. cbn [filter]. rewrite Hjind.
+            destruct (Z.leb_spec (d + 1) (d + len)) as [_|C]; [|lia]. cbn [map]. rewrite Hjind.
+            apply NoDup_app_single; [exact L3|]. intros Hcl. apply in_map_iff in Hcl. destruct Hcl as (j' & Ej' & Hj').
+            apply filter_In in Hj'. destruct Hj' as [Hj' Hdj']. apply Z.leb_le in Hdj'.
+            assert (Hout' : j_out j' = true) by (apply H6; [exact Hj'|lia]).
+            destruct (l_j2p _ _ _ HL j' Hj' Hout' ltac:(lia)) as (i' & Hi' & Hne' & P1 & P2 & P3 & _ & _ & _ & _ & _ & _ & _ & P11 & _).
+            rewrite Ej' in P2.
+            assert (Hneq : i' <> i). { intros ->. fold qs in P2. rewrite Hqs in P2. unfold now, SecondsInDay in *. lia. }
+            destruct (book_disjoint (t_book t2) i' i HI Hi' Hi Hneq Hne' Hne) as [D|D]; fold qs in D; rewrite ?P3, ?P2, ?O3 in D;
+              fold len in D; rewrite ?Hqs in D; unfold now, SecondsInDay in *; lia.
+        + (* the traveller is away *)
+          right. left. exists f, (g :: firstn 98 rest0), qs, len. rewrite Eh. cbn [entries oc].
+          split; [reflexivity|]. split; [split; [lia|left; exact O7]|].
+          split; [right; exists g, (firstn 98 rest0); split; [reflexivity|eapply home_head_stops; eauto]|].
+          split; [lia|]. split; [exact HT|]. split; [rewrite Hqs; unfold now, SecondsInDay; lia|].
+          split; [rewrite Hqs; unfold now, SecondsInDay in *; lia|]. split.
+          * exists jin. split; [apply in_or_app; right; left; reflexivity|]. split; [reflexivity|exact Hjf].
+          * intros j' Hj' Hd' Ho'. apply in_app_or in Hj'. destruct Hj' as [Hj'|[<-|[]]]; [|exact Hjf].
+            rewrite (H6 j' Hj' ltac:(lia)) in Ho'. discriminate.
+      - (* away: the return flight *)
+        destruct HA as (x & rest & qs & len & El' & Hx & Hstop & Hoc & HT & Hq1 & Hq2 & Hjex & Hall).
+        rewrite El in El'. injection El' as <- <-. fold now in Hq1, Hq2.
+        pose proof HT as [(i & Hi & Ets & Ete & Etr) Hday Hpos Hx1 Hx2 Hx3 Hxd Hroute Hl1 Hl2 Hl3 Hk].
+        assert (E86 : qs = 86400 * (qs / 86400)) by (unfold SecondsInDay in Hday; pose proof (Z_div_mod_eq_full qs 86400); lia).
+        destruct (j_out j) eqn:Hout.
+        { exfalso. destruct (l_j2p _ _ _ HL j Hj Hout ltac:(lia)) as (i' & Hi' & Hne' & P1 & P2 & P3 & _ & _ & _ & _ & _ & _ & _ & P11 & _).
+          rewrite Hjd in P2. fold now in P2.
+          assert (Hneq : i' <> i). { intros ->. rewrite Ets in P2. unfold SecondsInDay in *. lia. }
+          destruct (book_disjoint (t_book t2) i' i HI Hi' Hi Hneq Hne' ltac:(rewrite Ets; lia)) as [D|D];
+            rewrite ?P3, ?P2, ?Ets, ?Ete in D; unfold SecondsInDay in *; lia. }
+        pose proof (Hall j Hj ltac:(lia) Hout) as Hjf. fold f in Hjf.
+        pose proof Hjf as (I1 & I2 & I3 & I4 & I5).
+        pose proof (inflight_day _ _ _ _ Hjf Hday) as Ed. pose proof Hjd as Hjd'. unfold jday in Hjd'. fold f in Hjd'. rewrite Hjd' in Ed.
+        assert (Hnowq : now = qs + len * SecondsInDay) by (unfold now, SecondsInDay in *; lia).
+        destruct (open_leg_plain g Hx) as (_ & Hg0 & _ & Hge).
+        split.
+        { unfold e, checkin_ev. split; [cbn [ev_time]; lia|]. split; [unfold is_end; rewrite I5; reflexivity|].
+          split; [unfold SecondsInDay in *; lia|]. split; [rewrite El; cbn [getf nth]; unfold SecondsInDay in *; lia|].
+          intros Hm. rewrite (away_mid_trip t2 g rest0 El Hx) in Hm. discriminate. }
+        split; [unfold SecondsInDay in *; lia|]. split; [lia|]. split; [unfold SecondsInDay in *; lia|].
+        intros t3 pc' Es. cbn zeta. rewrite app_nil_r.
+        destruct (checkin_shape t2 (di_pc di) f g rest0 (fstart f) (di_params di) (di_debit di) t3 pc' HO El ltac:(unfold SecondsInDay in *; lia) Es) as (Eb & Eh & Ek).
+        assert (Hoc99 : Nat.ltb (oc (t_hist t2)) (MaxFlights - 1) = true) by (apply Nat.ltb_lt; unfold MaxFlights; lia).
+        rewrite Hoc99 in Eh. change (MaxFlights - 1)%nat with 99%nat in Eh. cbn [firstn] in Eh.
+        split; [rewrite Eb; apply Links_next; exact HL|].
+        right. right. exists f, g, (firstn 98 rest0), qs, len. rewrite Eh. cbn [entries oc].
+        split; [reflexivity|]. split; [exact Hx|]. split; [split; [unfold SecondsInDay in *; lia|left; exact I5]|].
+        split; [destruct rest0 as [|r0 rs]; [left; reflexivity|apply (stop_at_firstn (r0 :: rs) 97 Hstop)]|].
+        split; [lia|]. split.
+        { rewrite Eb. eapply Trip_kept; [|exact HT]. destruct Ek as [Ek|Ek]; rewrite Ek; lia. }
+        split; [exact Hjf|]. split; [unfold now, SecondsInDay in *; lia|].
+        intros j' Hj' Hd' . destruct (j_out j') eqn:Ho'; [reflexivity|exfalso].
+        pose proof (Hall j' Hj' ltac:(lia) Ho') as Hjf'.
+        pose proof (inflight_day _ _ _ _ Hjf' Hday) as Ed'. fold (jday j') in Ed'. lia. }
+    destruct Hcase as (Hconf & Hgf & Hnf & Hfd & Hnext).
+    destruct (step_J mx Hmx now t2 e HJ Hconf) as [Hacc HJ3].
+    unfold e, checkin_ev in Hacc. cbn [accepted] in Hacc. destruct Hacc as ([t3 pc'] & Es).
+    assert (Eapp : apply_ev mx t2 e = t3) by (unfold e, checkin_ev; cbn [apply_ev]; rewrite Es; reflexivity).
+    assert (Eacc : acceptedb t2 e = true) by (unfold e, checkin_ev; cbn [acceptedb]; rewrite Es; reflexivity).
+    change (checkin_ev di (j_flight j)) with e. rewrite Eacc, Eapp. cbn [andb]. rewrite app_nil_r.
+    split; [split; [exact Hconf|exact I]|]. split; [cbn [fold_left]; rewrite Eapp; reflexivity|].
+    unfold last_time. cbn [fold_left]. change (ev_time e) with (fstart f). destruct (Hnext t3 pc' Es) as [HL3 HP3]. cbn zeta in HL3, HP3.
+    constructor; cbn [b_trav b_pend].
+    + rewrite Eapp in HJ3. unfold e, checkin_ev in HJ3. cbn [ev_time] in HJ3. exact HJ3.
+    + unfold now, SecondsInDay in *. lia.
+    + lia.
+    + exact HL3.
+    + exact HP3.
+Qed.
+
+
+(** ---------- a whole day, and any number of days ---------- *)
+Theorem bot_day_conforms d clk (b : bot) (di : day_input) : BI d clk b -> day_ok tp di ->
+  let '(b', evs) := bot_day d b di in
+  conforming mx clk (b_trav b) evs /\ b_trav b' = fold_left (apply_ev mx) evs (b_trav b) /\
+  BI (d + 1) (last_time clk evs) b'.
+Proof.
+  intros HB Hday. pose proof (bi_d _ _ _ HB) as Hd.
+  destruct (update_step d clk b di HB Hday) as (Hc1 & HJ1 & HL1 & HP1).
+  unfold bot_day. set (now := d * SecondsInDay) in *.
+  set (e1 := EUpdate (di_params di) (di_share di) now) in *.
+  set (t1 := apply_ev mx (b_trav b) e1) in *.
+  destruct (di_plan di) as [c|] eqn:Ec.
+  - destruct (existsb (Z.eqb (c_day c)) (prepare_days (t_book t1) d (c_len c) (pMaxDays (di_params di)))) eqn:Eex.
+    + assert (Hin : In (c_day c) (prepare_days (t_book t1) d (c_len c) (pMaxDays (di_params di)))).
+      { apply existsb_exists in Eex. destruct Eex as (x & Hx & Ex). apply Z.eqb_eq in Ex. subst x. exact Hx. }
+      destruct (plan_step d t1 (b_pend b) di c HJ1 Hd HL1 HP1 Hday Ec Hin) as (Hc2 & HJ2 & HL2 & HP2).
+      fold now in Hc2, HJ2, HL2, HP2.
+      set (e2 := plan_ev now c (di_pred di)) in *. set (t2 := apply_ev mx t1 e2) in *.
+      set (pend2 := if plan_okb t1 e2 then b_pend b ++ [out_journey c] else b_pend b) in *.
+      pose proof (submit_step d t2 pend2 di HJ2 Hd HL2 HP2 Hday) as HS. fold now in HS.
+      destruct (bot_submit t2 (filter (journey_today d) pend2) di) as [[t3 newj] evs3].
+      destruct HS as (Hc3 & E3 & HB3). cbn [b_trav].
+      split; [cbn [conforming app]; fold t1; split; [exact Hc1|]; split; [exact Hc2|exact Hc3]|].
+      split; [cbn [app fold_left]; fold t1; fold t2; exact E3|].
+      unfold last_time in *. cbn [app fold_left]. exact HB3.
+    + pose proof (submit_step d t1 (b_pend b) di HJ1 Hd HL1 HP1 Hday) as HS. fold now in HS.
+      destruct (bot_submit t1 (filter (journey_today d) (b_pend b)) di) as [[t3 newj] evs3].
+      destruct HS as (Hc3 & E3 & HB3). cbn [b_trav].
+      split; [cbn [conforming app]; fold t1; split; [exact Hc1|exact Hc3]|].
+      split; [cbn [app fold_left]; fold t1; exact E3|].
+      unfold last_time in *. cbn [app fold_left]. exact HB3.
+  - pose proof (submit_step d t1 (b_pend b) di HJ1 Hd HL1 HP1 Hday) as HS. fold now in HS.
+    destruct (bot_submit t1 (filter (journey_today d) (b_pend b)) di) as [[t3 newj] evs3].
+    destruct HS as (Hc3 & E3 & HB3). cbn [b_trav].
+    split; [cbn [conforming app]; fold t1; split; [exact Hc1|exact Hc3]|].
+    split; [cbn [app fold_left]; fold t1; exact E3|].
+    unfold last_time in *. cbn [app fold_left]. exact HB3.
+Qed.
+
+Lemma conforming_app (a : list ev) : forall clk (t : traveller) b,
+  conforming mx clk t a -> conforming mx (last_time clk a) (fold_left (apply_ev mx) a t) b ->
+  conforming mx clk t (a ++ b).
+Proof.
+  induction a as [|e r IH]; intros clk t b Ha Hb; cbn [app]; [exact Hb|].
+  cbn [conforming] in *. destruct Ha as [H1 H2]. split; [exact H1|]. apply IH; [exact H2|exact Hb].
+Qed.
+
+(** the simulation of one traveller-bot over any number of days produces a history that follows the discipline *)
+Theorem bot_run_conforming (dis : list day_input) : forall d clk (b : bot),
+  BI d clk b -> Forall (day_ok tp) dis -> conforming mx clk (b_trav b) (bot_run d b dis).
+Proof.
+  induction dis as [|di r IH]; intros d clk b HB Hall; cbn [bot_run]; [exact I|].
+  inversion Hall as [|? ? Hdi Hr]; subst.
+  pose proof (bot_day_conforms d clk b di HB Hdi) as HD.
+  destruct (bot_day d b di) as [b' evs]. destruct HD as (Hc & Et & HB').
+  apply conforming_app; [exact Hc|]. rewrite <- Et. apply IH; assumption.
+Qed.
+
+(** ... hence every check-in the bot makes is accepted *)
+Corollary bot_run_all_accepted (dis : list day_input) d clk (b : bot) :
+  BI d clk b -> Forall (day_ok tp) dis -> all_accepted mx (b_trav b) (bot_run d b dis).
+Proof.
+  intros HB Hall. apply (conforming_history_all_accepted mx Hmx _ clk); [apply (bi_J _ _ _ HB)|].
+  apply bot_run_conforming; assumption.
+Qed.
+
+(** the invariant holds for a traveller-bot that has no record yet and nothing planned *)
+Lemma BI_new d now : 1 <= d -> BI d 0 (mkBot (new_traveller now) []).
+Proof.
+  intros Hd. constructor; cbn [b_trav b_pend].
+  - apply new_traveller_J; try exact Hmx.
+  - unfold SecondsInDay. lia.
+  - exact Hd.
+  - constructor.
+    + intros j [].
+    + intros i Hi Hne. exfalso. apply Hne. cbn [new_traveller t_book]. rewrite getp_empty_book. reflexivity.
+    + cbn. constructor.
+  - left. unfold Home. cbn [new_traveller t_hist t_kept t_book].
+    split; [left; reflexivity|]. split; [reflexivity|]. split; [cbn; unfold SecondsInDay; lia|].
+    split; [cbn; unfold SecondsInDay; lia|]. split; [intros Hm; discriminate Hm|intros j []].
+Qed.
+
 End WithNum.
